@@ -42,6 +42,10 @@ pub struct Case {
     /// variable x with unit sensitivity
     #[serde(default)]
     pub abscissa: Option<[Fl; 5]>,
+    /// the same problem is solved a second time on a domain multiplied by 2^rescale_exp (knots and
+    /// sites scaled, derivative data divided by the matching power): same coefficients expected
+    #[serde(default)]
+    pub rescale_exp: i16,
 }
 
 pub struct C15;
@@ -101,8 +105,9 @@ fn case_strategy() -> impl Strategy<Value = Case> {
         proptest::collection::vec(x_spec(), 1..5),
         prop_oneof![4 => Just(0u8), 1 => 1u8..=6],
         proptest::option::weighted(0.7, [coeff(), coeff(), coeff(), coeff(), coeff()]),
+        prop_oneof![6 => Just(0i16), 2 => -70i16..=-30, 2 => 20i16..=40],
     )
-        .prop_map(|(mut knots, layout, data, data_kind, evals, lsq_extra, abscissa)| {
+        .prop_map(|(mut knots, layout, data, data_kind, evals, lsq_extra, abscissa, rescale_exp)| {
             knots.k = knots.k.max(2);
             if let Layout::Natural { .. } = layout {
                 knots.k = 4;
@@ -114,7 +119,7 @@ fn case_strategy() -> impl Strategy<Value = Case> {
                     knots.interior.push((2, 1));
                 }
             }
-            Case { knots, layout, data, data_kind, evals, lsq_extra, abscissa }
+            Case { knots, layout, data, data_kind, evals, lsq_extra, abscissa, rescale_exp }
         })
 }
 
@@ -310,6 +315,84 @@ impl Property for C15 {
                 }
                 Err(p) => {
                     v.fail(format!("csolve | panic | {}", p.site()), format!("re-solve, k={} t={:?} tau={:?}: {}", k, t, s.tau, p.message));
+                    return v;
+                }
+            }
+        }
+        // scale covariance: the same problem on a domain multiplied by a power of two (exact) has the
+        // same coefficients; values agree and m-th derivatives scale by s^-m. Domains of 1e-18 and
+        // of 1e9 (knots that are POSIX timestamps) are what callers use.
+        // (a least-squares fit that contains derivative rows is not scale covariant: the rows are
+        // re-weighted against the value rows by s^-m, so it is left out)
+        if c.rescale_exp != 0 && !(s.lsq && (s.left_n > 0 || s.right_n > 0)) {
+            v.label(if c.rescale_exp < 0 { "domain:rescaled-tiny" } else { "domain:rescaled-huge" });
+            let sc = 2f64.powi(c.rescale_exp.clamp(-80, 80) as i32);
+            let ts: Vec<f64> = t.iter().map(|x| x * sc).collect();
+            let taus: Vec<f64> = s.tau.iter().map(|x| x * sc).collect();
+            let ys: Vec<f64> = (0..rows).map(|j| s.y[j] / sc.powi(if j == 0 { s.left_n as i32 } else if j == rows - 1 { s.right_n as i32 } else { 0 })).collect();
+            let cscale0 = coef.iter().fold(s.y.iter().fold(1.0f64, |m, x| m.max(x.abs())), |m, x| m.max(x.abs()));
+            match catch(|| {
+                let mut q = PPSpline::<f64>::new(k, ts.clone(), None);
+                let ok = q.csolve(&taus, &ys, s.left_n, s.right_n, s.lsq).is_ok();
+                let cs = q.c().as_ref().map(|c| c.to_vec()).unwrap_or_default();
+                // (points whose product with the scale is not exact - subnormal neighbours of a knot at
+                // zero - would land on another side of the knot and are left out)
+                let evals: Vec<(f64, Vec<f64>)> = c.evals.iter().map(|e| resolve_x(t, e)).filter(|x| (x * sc) / sc == *x && (*x == 0.0 || (x * sc).is_normal())).map(|x| (x, (0..k).map(|m| q.ppdnev_single(&(x * sc), m).unwrap_or(f64::NAN) * sc.powi(m as i32)).collect())).collect();
+                (ok, cs, evals)
+            }) {
+                Ok((true, cs, evals)) => {
+                    // A domain of 1e6 .. 1e12 makes derivative rows 1e-12 .. 1e-24 times smaller than
+                    // value rows. Gaussian elimination with partial pivoting is then only accurate
+                    // relative to the largest rows (measured on the pinned tree: end conditions of the
+                    // natural / clamped layout are met to 2e-6 of their own terms or better, of
+                    // Greville layouts of order 5-6 sometimes not at all), which is the algorithm's
+                    // known sensitivity to row scaling and not something the property rules out.
+                    // There the relation is reduced to: data rows are reproduced, and the end
+                    // conditions of the callers' natural / clamped layout are met to 5% of their own
+                    // terms (a change that drops them entirely is still seen).
+                    let tiny_rows = c.rescale_exp > 0 && (s.left_n > 0 || s.right_n > 0);
+                    if tiny_rows && cs.len() == n {
+                        let rr = |j: usize| -> f64 {
+                            let r: f64 = (0..n).map(|i| bmat[j][i] * cs[i]).sum::<f64>() - s.y[j];
+                            let m: f64 = (0..n).map(|i| (bmat[j][i] * cs[i]).abs()).sum::<f64>() + s.y[j].abs();
+                            if m == 0.0 { 0.0 } else { r.abs() / m }
+                        };
+                        v.label("domain:rescaled-huge:derivative-rows");
+                        if !s.lsq {
+                            for j in 0..rows {
+                                let end_row = (j == 0 && s.left_n > 0) || (j == rows - 1 && s.right_n > 0);
+                                let allowed = if !end_row { 1e-9 * cond } else if matches!(c.layout, Layout::Natural { .. }) { 5e-2 } else { f64::INFINITY };
+                                if !(rr(j) <= allowed) {
+                                    v.fail(
+                                        if end_row { "end condition is not met on a rescaled domain" } else { "data are not reproduced on a rescaled domain" },
+                                        format!("k={} t={:?} tau={:?} end orders ({}, {}) scale 2^{}: row {} relative residual {:e}", k, t, s.tau, s.left_n, s.right_n, c.rescale_exp, j, rr(j)),
+                                    );
+                                    return v;
+                                }
+                            }
+                        }
+                    } else if cs.len() != n || (0..n).any(|i| !((cs[i] - coef[i]).abs() <= 1e-8 * cond * cscale0)) {
+                        v.fail("solving on a rescaled domain gives different coefficients", format!("k={} t={:?} tau={:?} end orders ({}, {}) lsq={} scale 2^{}: {:?} vs {:?} (cond {:.1e})", k, t, s.tau, s.left_n, s.right_n, s.lsq, c.rescale_exp, cs, coef, cond));
+                        return v;
+                    }
+                    for (x, ders) in evals.into_iter().filter(|_| !tiny_rows) {
+                        for m in 0..k {
+                            let unscaled = sp.ppdnev_single(&x, m).unwrap_or(f64::NAN);
+                            // coefficient differences within their allowance, carried through the basis
+                            let bsum: f64 = (0..n).map(|i| reference[i].eval(t, x, m).1.max(reference[i].eval(t, x, m).0.abs())).sum();
+                            if !((ders[m] - unscaled).abs() <= 1e-8 * cond * cscale0 * (1.0 + bsum)) {
+                                v.fail("evaluating on a rescaled domain is not the rescaled evaluation", format!("k={} t={:?} x={:?} m={} scale 2^{}: {:e} (scaled back) vs {:e}", k, t, x, m, c.rescale_exp, ders[m], unscaled));
+                                return v;
+                            }
+                        }
+                    }
+                }
+                Ok((false, _, _)) => {
+                    v.fail("csolve rejected an admissible site set", format!("on the domain rescaled by 2^{}: k={} t={:?} tau={:?}", c.rescale_exp, k, t, s.tau));
+                    return v;
+                }
+                Err(p) => {
+                    v.fail(format!("csolve | panic | {}", p.site()), format!("rescaled by 2^{}, k={} t={:?} tau={:?}: {}", c.rescale_exp, k, t, s.tau, p.message));
                     return v;
                 }
             }
@@ -714,7 +797,7 @@ impl Property for C15 {
     }
 
     fn rule(&self) -> String {
-        "random (order 2-6, knot sequence as in C14, site layout: Greville sites with end rows of derivative order 0-2, or for order 4 with distinct interior knots the callers' natural / clamped layout [a,a,interior knots,b,b] with second / first derivative end conditions; data: random floats or samples of a random polynomial of degree < k with matching end-derivative values; data kind float / first-order / second-order with datum j tagged y{j}; optional 1-6 extra sites solved by least squares; 1-4 evaluation points as in C14). Site sets are admissible by construction; draws whose collocation matrix has cond >= 1e8 (own estimate) are skipped and counted. Oracle: coefficients x reference basis (C14 model) reproduce every data row and end condition; an object solved before on other data (and through a failed call) ends with bit-identical coefficients; polynomial data are reproduced with all derivatives m <= k everywhere; library evaluation == coefficients x reference basis; dual abscissae (plain tagged and composite) return s', s'' as sensitivities, for the spline and for every basis function through the four public dual basis entry points; splines with dual data evaluated at a dual abscissa (m = 0 and m = 1) carry d/dx = next derivative, d/dy_j = unit-data spline (its derivative for m = 1) and, at second order, the mixed (x, y_j) terms; for dual data d s(x)/d y_j == row of the independently inverted collocation matrix (and the library's own unit-data spline), zero Hessian; the 3x3 spline-kind x abscissa-kind table (mapped_value and direct) returns matching kinds and refuses first/second-order mixes; unsolved evaluation, wrong site counts and y/tau length mismatches are errors. Non-trivial: k >= 3, >= 1 interior knot, and non-polynomial or dual data.".into()
+        "random (order 2-6, knot sequence as in C14, site layout: Greville sites with end rows of derivative order 0-2, or for order 4 with distinct interior knots the callers' natural / clamped layout [a,a,interior knots,b,b] with second / first derivative end conditions; data: random floats or samples of a random polynomial of degree < k with matching end-derivative values; data kind float / first-order / second-order with datum j tagged y{j}; optional 1-6 extra sites solved by least squares; 1-4 evaluation points as in C14). Site sets are admissible by construction; draws whose collocation matrix has cond >= 1e8 (own estimate) are skipped and counted. Oracle: coefficients x reference basis (C14 model) reproduce every data row and end condition; an object solved before on other data (and through a failed call) ends with bit-identical coefficients; in 40% of draws the problem is solved again on a domain multiplied by 2^-70..-30 or 2^20..40 (knots and sites scaled, derivative data divided by the matching power) and must give the same coefficients and the rescaled evaluations (on huge domains with derivative end rows only: data rows reproduced, natural / clamped end conditions met to 5% of their own terms - partial pivoting is not row-scaling invariant); polynomial data are reproduced with all derivatives m <= k everywhere; library evaluation == coefficients x reference basis; dual abscissae (plain tagged and composite) return s', s'' as sensitivities, for the spline and for every basis function through the four public dual basis entry points; splines with dual data evaluated at a dual abscissa (m = 0 and m = 1) carry d/dx = next derivative, d/dy_j = unit-data spline (its derivative for m = 1) and, at second order, the mixed (x, y_j) terms; for dual data d s(x)/d y_j == row of the independently inverted collocation matrix (and the library's own unit-data spline), zero Hessian; the 3x3 spline-kind x abscissa-kind table (mapped_value and direct) returns matching kinds and refuses first/second-order mixes; unsolved evaluation, wrong site counts and y/tau length mismatches are errors. Non-trivial: k >= 3, >= 1 interior knot, and non-polynomial or dual data.".into()
     }
 
     fn floors(&self, tier: Tier) -> Vec<Floor> {
@@ -728,6 +811,8 @@ impl Property for C15 {
             Floor { label: "cell:Dual2-spline", min: n / 5 },
             Floor { label: "data:polynomial", min: n / 5 },
             Floor { label: "least-squares", min: n / 20 },
+            Floor { label: "domain:rescaled-tiny", min: n / 20 },
+            Floor { label: "domain:rescaled-huge", min: n / 20 },
             Floor { label: "abscissa:composite", min: n / 2 },
         ]
     }
